@@ -90,6 +90,20 @@ def main(ctx):
     scheds = scheds + critscheds
     kinds.update(critkinds)
 
+    # 2a-types: a second push type whose items carry the SAME 128-bit hash values (one registry for all types, keyed by type +
+    # hash; its holder does not support pending requests, like the transaction pool and the key pool)
+    rt = vlib.tlc(ctx, "MC_Tracker.tla", "MC_Tracker_types.cfg", workers=12, timeout=1800, extra=["-seed", str(ctx.seed)])
+    if not rt.ok:
+        raise vlib.CheckError("design-level Tracker push-type model violates %s (model-only, not a verdict):\n%s"
+                              % (rt.invariant, (rt.error or "")[:1500]))
+    typescheds, typekinds = pick_schedules(sorted(rt.exports, key=lambda e: json.dumps(e, sort_keys=True)), rnd, 3 if quick else 120)
+    ctx.log("push-type model: %d generated / %d distinct; %d kinds exported; replaying %d" % (rt.generated, rt.distinct, len(typekinds), len(typescheds)))
+    for k in ("types-plain-own0-twin2-ask", "types-plain-own0-twin3-ask", "types-tracked-own0-twin2-ask", "types-plain-own0-twin1-twinstored-ask"):
+        if not typekinds.get(k):
+            raise vlib.CheckError("push-type model never exercised '%s' (vacuous bounds); kinds: %s" % (k, sorted(typekinds)[:40]))
+    scheds = scheds + typescheds
+    kinds.update(typekinds)
+
     # 2b: random walks of a larger instance
     nwalk = 150 if quick else 3000
     rs = vlib.tlc(ctx, "MC_Tracker.tla", "MC_Tracker_sim.cfg", workers=1, timeout=1800,
